@@ -259,6 +259,11 @@ def run(ctx):
         names = rng.sample(['a', 'A', 'b', 'Foo', 'foo', 'X-y', 'unknown'], rng.randint(1, 3))
         vals = [G.words_line(rng) for _ in range(rng.randint(1, 3))]
         pats.append([(rng.choice(names), rng.choice(vals)) for _ in range(rng.randint(1, 8))])
+    for size in (129, 130, 200, 300, 1100):
+        vals = ['v%d' % i for i in range(size)]
+        seq = [('Tag', v) for v in vals] + [('Tag', vals[0]), ('tag', vals[1]), ('TAG', vals[size // 2]), ('Tag', 'last')]
+        pats.append(seq)
+        pats.append([('a', '1')] + seq[:size // 2] + [('b', 'x'), ('Tag', vals[0])] + seq[size // 2:])
     pats = [[(n, ' '.join(v.split())) for n, v in p] for p in pats]
     fails += ctx.prop('prop:merge', pats, p_merge)
     mpats = []
